@@ -691,7 +691,7 @@ func evalC13Concurrent(c *Ctx, cs *Case) {
 					ret := atomic.AddInt64(&clock, 1)
 					h.ops = append(h.ops, porcupine.Operation{ClientId: g, Input: hIn{Kind: "op", Tree: h.t.id, Op: op}, Call: call, Output: hOut{Result: res}, Return: ret})
 					c.SetAdd("ops", op)
-				case k == 10 && withHandoff:
+				case k == 10 && withHandoff && r.Chance(1, 2):
 					// hand a tree to another goroutine / take one over
 					if len(own) > 1 {
 						select {
@@ -712,8 +712,27 @@ func evalC13Concurrent(c *Ctx, cs *Case) {
 					doc := gen.Spell(f, gen.RandSpelling(r))
 					want := model.Render(model.Merge(f), model.DefaultBranch)
 					var o Outcome
-					kind := r.Intn(3)
+					kind := r.Intn(5)
 					switch kind {
+					case 3, 4:
+						// massive JSON / YAML: overlapping massive calls with the same encoding must not mix
+						enc, dec := gtree.WithEncodeJSON(), DecodeJSONLines
+						if kind == 4 {
+							enc, dec = gtree.WithEncodeYAML(), DecodeYAMLDocs
+						}
+						o = OutputMD(doc, enc, gtree.WithMassive(context.Background()))
+						if df, err := dec(o.Out); err == nil && o.Err == nil {
+							var a, b []string
+							for _, x := range df {
+								a = append(a, model.Forest{x}.String())
+							}
+							for _, x := range model.Merge(f) {
+								b = append(b, model.Forest{x}.String())
+							}
+							if sameMultiset(a, b) {
+								o.Out = []byte(want)
+							}
+						}
 					case 0:
 						o = OutputMD(doc)
 					case 1:
